@@ -58,7 +58,7 @@ def run(chk):
     # 2 ActorRef.cast, 3 ActorRef.call, 4 ActorRef.call with timeout, 5 rpc::cast, 6 rpc::call, 7 ActorRef.call_and_forward,
     # 8 rpc::call_and_forward, 9 rpc::multi_call), followed by a
     # correct message that must still be handled; and correctly typed cast / call
-    entry_blocks = ([(A.S(90, f"w{k}"), A.S(91)) for k in "0123456789dr"] + [(A.S(90, str(k)),) for k in (2, 3, 4, 6)]
+    entry_blocks = ([(A.S(90, f"w{k}"), A.S(91)) for k in "0123456789drzy"] + [(A.S(90, k), A.S(91)) for k in "zy"] + [(A.S(90, str(k)),) for k in (2, 3, 4, 6)]
                     # DerivedActorRef (get_derived: converter closure, TryFrom back-conversion of a refused message) and
                     # typed registry lookup (ActorRef::where_is + is_message_type_of)
                     + [(A.S(90, k), A.S(91)) for k in "dr"] + [(A.S(90, "d"), A.D, A.S(91, "d")), (A.S(90, "r"), A.T, A.S(91, "r"))]
